@@ -320,3 +320,62 @@ func (ExtWideProfile) GetClaims() psatoken.IClaims {
 	}
 	return &ExtWideClaims{P2Claims: psatoken.P2Claims{Profile: &ep, SwComponents: &psatoken.SwComponents[*psatoken.SwComponent]{}, CanonicalProfile: ExtWideName}}
 }
+
+// ---- profiles with unusual but legal shapes (C16) ----
+
+// ForgetfulProfile's factory sets the profile claim but leaves the canonical profile at the base profile's value.
+type ForgetfulProfile struct{ Name string }
+
+func (p ForgetfulProfile) GetName() string { return p.Name }
+func (p ForgetfulProfile) GetClaims() psatoken.IClaims {
+	ep := eat.Profile{}
+	if err := ep.Set(p.Name); err != nil {
+		panic(err)
+	}
+	return &ExtP2Claims{P2Claims: psatoken.P2Claims{Profile: &ep, SwComponents: &psatoken.SwComponents[*psatoken.SwComponent]{}, CanonicalProfile: psatoken.Profile2Name}}
+}
+
+// HdrIface is embedded by HdrClaims: the profile field lives in whatever the interface holds, so two
+// registrations with the same Go claims type can have different JSON profile members.
+type HdrIface interface{ hdr() }
+
+type hdrEAT struct {
+	Profile *eat.Profile `cbor:"265,keyasint" json:"eat-profile"`
+}
+type hdrPSA struct {
+	Profile *string `cbor:"-75000,keyasint,omitempty" json:"psa-profile,omitempty"`
+}
+
+func (hdrEAT) hdr() {}
+func (hdrPSA) hdr() {}
+
+type HdrClaims struct {
+	HdrIface
+	*psatoken.P2Claims
+	name string
+}
+
+func (c *HdrClaims) GetProfile() (string, error) { return c.name, nil }
+
+// HdrProfile: Style 0 = EAT-style header, 1 = PSA-style header, 2 = no header (no profile field at all).
+type HdrProfile struct {
+	Name  string
+	Style int
+}
+
+func (p HdrProfile) GetName() string { return p.Name }
+func (p HdrProfile) GetClaims() psatoken.IClaims {
+	c := &HdrClaims{P2Claims: &psatoken.P2Claims{SwComponents: &psatoken.SwComponents[*psatoken.SwComponent]{}, CanonicalProfile: p.Name}, name: p.Name}
+	switch p.Style {
+	case 0:
+		ep := eat.Profile{}
+		if err := ep.Set(p.Name); err != nil {
+			panic(err)
+		}
+		c.HdrIface = hdrEAT{Profile: &ep}
+	case 1:
+		n := p.Name
+		c.HdrIface = hdrPSA{Profile: &n}
+	}
+	return c
+}
